@@ -581,8 +581,66 @@ def rule_sg(ctx):
     ctx.report.floor('copy() signatures with freeze', n, 10)
 
 
+def rule_al(ctx):
+    """a stage that keeps the caller's raw argument next to the value it resolved from it (SliceDataset: `_slice` is the
+    caller's index object - possibly the live permutation array of a reshuffle -, `slice` the private index array) works
+    with the resolved value only: after construction the raw attribute is read for display and handed on by reference,
+    never resolved again (the object may have been modified in place since)."""
+    rep = ctx.report
+    pairs = 0
+    for cls in K.family(ctx):
+        ini = cls.own('__init__')
+        if ini is None or not ini.is_function:
+            continue
+        fn = ini.node
+        params = [a_.arg for a_ in fn.args.posonlyargs + fn.args.args + fn.args.kwonlyargs][1:]
+        raw = {n.targets[0].attr for n in A.walk_local(fn) if isinstance(n, ast.Assign) and A.is_self_attr(n.targets[0])
+               and isinstance(n.value, ast.Name) and n.value.id in params}
+        derived = {}
+        for n in A.walk_local(fn):
+            if isinstance(n, ast.Assign) and A.is_self_attr(n.targets[0]) and n.targets[0].attr not in raw:
+                for x in ast.walk(n.value):
+                    if A.is_self_attr(x) and x.attr in raw:
+                        # the raw object is used as a *selection* (an index / an argument), not as the container that is read
+                        par = A.parent(x)
+                        sel = False
+                        while par is not None and par is not n:
+                            if isinstance(par, ast.Subscript) and any(y is x for y in ast.walk(par.slice)):
+                                sel = True
+                            par = A.parent(par)
+                        if sel:
+                            derived.setdefault(x.attr, set()).add(n.targets[0].attr)
+        for r, ds_ in sorted(derived.items()):
+            pairs += 1
+            bad = []
+            for mname, mem in cls.members.items():
+                if not mem.is_function or mname in ('__init__', '__repr__', '__str__'):
+                    continue
+                for x in A.walk_local(mem.node):
+                    if A.is_self_attr(x, r) and isinstance(x.ctx, ast.Load):
+                        par = A.parent(x)
+                        by_ref = isinstance(par, ast.Assign) and par.value is x and isinstance(par.targets[0], ast.Attribute) \
+                            and par.targets[0].attr == r
+                        if not by_ref:
+                            bad.append((mname, x))
+            rep.ob('AL', K.key(cls, None, 'raw-argument(%s)-not-resolved-again-after-construction' % r), not bad,
+                   bad[0][1] if bad else cls.node,
+                   '' if not bad else '%s.%s reads self.%s (the caller\'s object, resolved into self.%s at construction) again: '
+                   'if that object was modified in place meanwhile - the permutation array of a reshuffle is - the copy / result '
+                   'no longer has the order that was frozen' % (cls.name, bad[0][0], r, '/'.join(sorted(ds_))))
+    rep.floor('raw/resolved attribute pairs', pairs, 1)
+
+
+def rule_st(ctx):
+    """what copy() hands to the constructor is what the copy is configured with"""
+    n = K.ctor_stores_exact(ctx, 'ST')
+    ctx.report.floor('parameter stores in stage constructors', n, 30)
+
+
 def run(ctx):
     rule_sg(ctx)
+    rule_st(ctx)
+    rule_al(ctx)
     rule_cc(ctx)
     rule_fz(ctx)
     rule_rs(ctx)
